@@ -660,8 +660,12 @@ def c15_check(sc, res):
                     if not close(r['pwm'], want, 1e-9 + cond):
                         out.append(W('rule-value', f'instant {k}: recorded duty cycle {r["pwm"]!r}; the rules {[x["r"] for x in rules]} propose {[(q[0], q[1]) for q in props]} (expected {want!r})', sc, instant=k))
                         return out
-                    if props and props[0][0] == 'lim' and props[0][3] == 0 and m['i0'] / m['imax'] + 1e-9 < props[0][1] < 1 - 1e-9 and r['cur'] is not None and cond < 1e-10:
-                        if not close(r['cur'], props[0][2], 1e-9 * m['imax']):
+                    if props and props[0][0] == 'lim' and props[0][3] == 0 and m['i0'] / m['imax'] + 1e-9 < props[0][1] < 1 - 1e-9 and r['cur'] is not None:
+                        # the duty cycle is known to `cond` (absolute); the current law i = (D imax - i0)(1 - s/D) + i0, s = w/w0, amplifies
+                        # that by |di/dD| (large on a run that has blown up numerically)
+                        D_, s_m = props[0][1], r['spd'][0] / m['w0']
+                        didD = m['imax'] * (1 + abs(s_m / D_)) + abs(D_ * m['imax'] - m['i0']) * abs(s_m) / D_ ** 2
+                        if not close(r['cur'], props[0][2], 1e-9 * m['imax'] + 4 * (cond + 2.0 ** -52 * abs(D_)) * didD):
                             out.append(W('limit-current', f'instant {k}: StartLimitCurrent in force and unclipped (duty cycle {r["pwm"]!r}) but the recorded current is {r["cur"]!r} A, limit {props[0][2]!r} A', sc, instant=k))
                             return out
             hist_len = mlen
